@@ -264,6 +264,13 @@ theorem step_cCtx {s s' : St V} (h : step s .cCtx = some s') :
   · rename_i hp; simp at h; exact ⟨hp, h.symm⟩
   · simp at h
 
+theorem step_cExpire {s s' : St V} (h : step s .cExpire = some s') :
+    s.cpc = .inNext true ∧ s' = { s with cpc := .inNext false } := by
+  simp only [step] at h
+  split at h
+  · rename_i hp; simp at h; exact ⟨hp, h.symm⟩
+  · simp at h
+
 theorem step_cClose {s s' : St V} (h : step s .cClose = some s') :
     s.cpc = .idle ∧ s' = { s with cpc := .closing [.closeInner, .cancel, .wait] } := by
   simp only [step, closeSeq_eq] at h
